@@ -1,11 +1,15 @@
-(* Theorems stated directly on the GENERATED models (GenMrb.v, GenSigDef.v: written by
+(* Theorems stated directly on the GENERATED models (GenMrb.v, GenCore.v: written by
    tools/c2gallina.py from /repo's current msg_ring_buffer.c and core.c on every run; helper
    definitions in GenLib.v).  Two kinds:
      *_is_model   the generated function equals the hand-written model function (MrbModel.v,
                   SigDef.v) on every input of the stated representation - so every theorem about
                   the hand model is a theorem about what the C says now;
      C08_gen_* / C16_gen_*   headline theorems of C08 / C16 restated on the generated functions.
-   Proofs: GenMrbEq.v, GenSigDefEq.v.
+   Also: payload_size_on_disk of raw.c (C05/C14 framing arithmetic, Format.v) and the binary search of
+   interp_i64 of tmap.c (C12, TmapModel.search) - GenRaw.v, GenTmap.v.
+   The omit-register shift of wr_data (wr_fsr.c, C15) and the step-size computation of
+   jls_core_fsr_seek (core.c, C01) are fragments: GenFsr.v, GenCore.v against PyramidModel.v.
+   Proofs: GenMrbEq.v, GenSigDefEq.v, GenRawEq.v, GenTmapEq.v, GenFsrEq.v, GenSeekEq.v.
 
    Representation (GenMrbEq.v).  s_of g m is the hand state whose fields are those of the C struct
    g and whose array is m; g_of s the struct of a hand state (buf = pointer to offset 0 of the
@@ -14,7 +18,8 @@
    Representation (GenSigDefEq.v).  d_of g = the six storage parameters of the C struct g,
    width g = (data_type >> 8) & 0xff, put g d = g with the six parameters replaced. *)
 From Coq Require Import NArith ZArith List.
-From JLS Require Import Generated GenLib GenMrb GenSigDef MrbModel SigDef SigDefProofs GenMrbEq GenSigDefEq.
+From JLS Require Import Generated GenLib GenMrb GenCore GenRaw GenTmap GenFsr MrbModel SigDef SigDefProofs Format
+  TmapModel PyramidModel GenMrbEq GenSigDefEq GenRawEq GenTmapEq GenFsrEq GenSeekEq.
 Import ListNotations.
 Local Open Scope N_scope.
 
@@ -256,3 +261,79 @@ Example C16_gen_ex :
   jls_core_signal_def_align 100 g1 = GenLib.Ok (0%Z, put g1 (mkSigDef 128 32 100 10 10 10)).
 Proof. exact gen_sd_ex. Qed.
 Print Assumptions C16_gen_ex.
+
+(* ====================== C05 / C14: raw.c, bytes a payload occupies on disk ====================== *)
+(* the generated payload_size_on_disk is Format.fm_disk_len (payload + zero padding to 8k - 4 + CRC),
+   computed in uint32_t ... *)
+Theorem C05_gen_payload_size_on_disk_is_model : forall pl : N, pl < 4294967296 ->
+  payload_size_on_disk pl = GenLib.Ok (GenLib.u32 (fm_disk_len pl)).
+Proof. exact gen_payload_size_on_disk_eq. Qed.
+Print Assumptions C05_gen_payload_size_on_disk_is_model.
+
+(* ... hence exactly fm_disk_len (and header + that = fm_chunk_size) for every payload below 2^32 - 11 *)
+Theorem C05_gen_payload_size_on_disk_exact : forall pl : N, pl + 11 < 4294967296 ->
+  payload_size_on_disk pl = GenLib.Ok (fm_disk_len pl) /\
+  (pl <> 0 -> GenLib.Ok (SIZEOF_chunk_header + fm_disk_len pl) = GenLib.Ok (A := N) (fm_chunk_size pl)).
+Proof. exact gen_payload_size_on_disk_exact. Qed.
+Print Assumptions C05_gen_payload_size_on_disk_exact.
+
+(* ====================== C12: tmap.c, the binary search of interp_i64 ====================== *)
+(* the generated search (statements of interp_i64 up to the clamp; x = the entries_length valid
+   elements) returns what TmapModel.search returns - no read at or beyond entries_length, fuel never
+   exhausted - for every list of at least 2 elements and every fuel >= entries_length *)
+Theorem C12_gen_tmap_search_is_model : forall (fuel : nat) (g : jls_tmap_s) (xs : list Z) (x0 : Z),
+  g.(jls_tmap_s_entries_length) = N.of_nat (length xs) -> (2 <= length xs)%nat ->
+  N.of_nat (length xs) < 9223372036854775808 -> (length xs <= fuel)%nat ->
+  exists c, search xs x0 = TmOk c /\ interp_i64'search fuel g x0 xs = GenLib.Ok (N.of_nat c) /\
+            (c + 2 <= length xs)%nat.
+Proof. exact gen_search_eq. Qed.
+Print Assumptions C12_gen_tmap_search_is_model.
+
+(* ====================== C15: wr_fsr.c, the omit register ====================== *)
+(* the statement `write_omit_data = (write_omit_data << 1) | (write_omit_data & 1)` (uint8_t) at the end
+   of wr_data is PyramidModel.py_reg_shift - and the expression WmFsr.v uses *)
+Theorem C15_gen_omit_shift_is_model : forall g : jls_core_fsr_s,
+  g.(jls_core_fsr_s_write_omit_data) < 256 ->
+  wr_data'omit_shift g =
+  GenLib.Ok (set_jls_core_fsr_s_write_omit_data g (Z.to_N (py_reg_shift (Z.of_N g.(jls_core_fsr_s_write_omit_data))))).
+Proof. exact gen_omit_shift_eq. Qed.
+Print Assumptions C15_gen_omit_shift_is_model.
+
+Theorem C15_gen_omit_shift_N : forall g : jls_core_fsr_s,
+  g.(jls_core_fsr_s_write_omit_data) < 256 ->
+  wr_data'omit_shift g =
+  GenLib.Ok (set_jls_core_fsr_s_write_omit_data g
+        (N.lor (N.shiftl g.(jls_core_fsr_s_write_omit_data) 1) (N.land g.(jls_core_fsr_s_write_omit_data) 1) mod 256)).
+Proof. exact gen_omit_shift_N. Qed.
+Print Assumptions C15_gen_omit_shift_N.
+
+(* ====================== C01: core.c, step size of jls_core_fsr_seek ====================== *)
+(* whenever the generated step-size fragment returns (no division by zero, no int64 overflow) it
+   returns PyramidModel.py_step ... *)
+Theorem C01_gen_seek_step_sound : forall (fuel : nat) (g : GenCore.jls_signal_def_s) (lvl v : Z), (0 <= lvl)%Z ->
+  jls_core_fsr_seek'step_size fuel g lvl = GenLib.Ok v -> v = py_step (dpy g) (Z.to_nat lvl).
+Proof. exact gen_step_sound. Qed.
+Print Assumptions C01_gen_seek_step_sound.
+
+(* ... and it does return for levels 0..15 and fuel >= 16 when the divisors are non-zero and every
+   intermediate product is below 2^63 *)
+Theorem C01_gen_seek_step_total : forall (fuel : nat) (g : GenCore.jls_signal_def_s) (lvl : Z),
+  (0 <= lvl < 16)%Z -> (16 <= fuel)%nat ->
+  GenCore.jls_signal_def_s_sample_decimate_factor g <> 0 ->
+  GenCore.jls_signal_def_s_samples_per_data g / GenCore.jls_signal_def_s_sample_decimate_factor g <> 0 ->
+  (let d := dpy g in let lv := Z.to_nat lvl in
+   let s1 := if (1 <? lv)%nat then (py_spd d * (py_eps d / (py_spd d / py_sdf d)))%Z else py_spd d in
+   forall n, (n <= lv - 2)%nat -> (py_mul_loop n (py_sumdf d) s1 < 2 ^ 63)%Z) ->
+  jls_core_fsr_seek'step_size fuel g lvl = GenLib.Ok (py_step (dpy g) (Z.to_nat lvl)).
+Proof. exact gen_step_total. Qed.
+Print Assumptions C01_gen_seek_step_total.
+
+(* satisfiable; with the 32-bit defaults level 15 would overflow int64 (3.4e21 samples per entry) *)
+Example C01_gen_seek_step_ex :
+  let g := GenCore.mk_jls_signal_def_s 1 1 0 0 0 1000 8192 128 640 20 100 100 0 Null Null in
+  step_fits (dpy g) 10 /\
+  jls_core_fsr_seek'step_size 16 g 1 = GenLib.Ok 8192%Z /\ jls_core_fsr_seek'step_size 16 g 2 = GenLib.Ok 81920%Z /\
+  jls_core_fsr_seek'step_size 16 g 4 = GenLib.Ok 32768000%Z /\
+  jls_core_fsr_seek'step_size 16 g 15 = GenLib.Fault Signed_overflow.
+Proof. exact gen_step_ex. Qed.
+Print Assumptions C01_gen_seek_step_ex.
